@@ -293,6 +293,17 @@ func init() {
 			if json.Unmarshal(b, &bl) == nil && bl.Family == "backlog" {
 				return c05Backlog(e, bl.Buffer, bl.Variant, bl.Route)
 			}
+			var fam struct {
+				Family string `json:"family"`
+				How    string `json:"how"`
+				Route  string `json:"route"`
+			}
+			if json.Unmarshal(b, &fam) == nil && fam.Family == "answer-then-end" {
+				return c05AnswerThenEnd(e, fam.How, fam.Route)
+			}
+			if json.Unmarshal(b, &fam) == nil && fam.Family == "similar-ids" {
+				return c05SimilarIDs(e, fam.Route)
+			}
 			var wrap struct {
 				Case *c05Case `json:"case"`
 			}
@@ -396,6 +407,28 @@ func c05Stress(e *Env, rounds int) error {
 				}(buf, variant, route)
 			}
 		}
+	}
+	for _, route := range []string{"pipe", "inproc"} {
+		for _, how := range []string{"finish", "fail", "drop"} {
+			bwg.Add(1)
+			go func(how, route string) {
+				defer bwg.Done()
+				if err := c05AnswerThenEnd(e, how, route); err != nil {
+					bmu.Lock()
+					berr = err
+					bmu.Unlock()
+				}
+			}(how, route)
+		}
+		bwg.Add(1)
+		go func(route string) {
+			defer bwg.Done()
+			if err := c05SimilarIDs(e, route); err != nil {
+				bmu.Lock()
+				berr = err
+				bmu.Unlock()
+			}
+		}(route)
 	}
 	bwg.Wait()
 	if berr != nil {
